@@ -92,15 +92,16 @@ theorem blockAt_fixed (s : Bytes) (p : Nat) (out : Bytes) (p1 : Nat) (out1 : Byt
     (by rw [heob]; simp only [Tok.endPos]; exact hsz) (by omega) (hminD_fixed s)
   rw [hloc.1]; exact heob
 
-/-- After `n` complete non-final blocks, the spec's block loop on `s` stands at `(p, out)` — robustly. -/
-inductive RReach (s : Bytes) : Nat → Nat → Bytes → Prop
-  | zero : RReach s 0 0 #[]
+/-- After `n` complete non-final blocks, the spec's block loop on `s` — started with the output `D` (a
+preset dictionary; `#[]` without one) — stands at `(p, out)`, robustly. -/
+inductive RReach (D s : Bytes) : Nat → Nat → Bytes → Prop
+  | zero : RReach D s 0 0 D
   | step {n p' : Nat} {out' : Bytes} {p : Nat} {out : Bytes} :
-      RReach s n p' out' → bitAt s p' = 0 → BlockAt s p' out' p out → RReach s (n + 1) p out
+      RReach D s n p' out' → bitAt s p' = 0 → BlockAt s p' out' p out → RReach D s (n + 1) p out
 
-theorem RReach.run {s : Bytes} {n p : Nat} {out : Bytes} (h : RReach s n p out) :
+theorem RReach.run {D s : Bytes} {n p : Nat} {out : Bytes} (h : RReach D s n p out) :
     ∀ s'' : Bytes, (∀ i, i < p → bitAt s'' i = bitAt s i) → p ≤ 8 * s''.size →
-      ∀ fuel, blocks s'' none 0 (fuel + n) 0 #[] = blocks s'' none 0 fuel p out := by
+      ∀ fuel, blocks s'' none 0 (fuel + n) 0 D = blocks s'' none 0 fuel p out := by
   induction h with
   | zero => intro s'' _ _ fuel; rfl
   | @step n p' out' p out hr hfin hblk ih =>
@@ -113,10 +114,19 @@ theorem RReach.run {s : Bytes} {n p : Nat} {out : Bytes} (h : RReach s n p out) 
     simp only [hag p' (by omega), hfin, capReached]
     simp
 
-theorem RReach.prefix {s : Bytes} {n p : Nat} {out : Bytes} (h : RReach s n p out) : 3 * n ≤ p := by
+theorem RReach.prefix {D s : Bytes} {n p : Nat} {out : Bytes} (h : RReach D s n p out) : 3 * n ≤ p := by
   induction h with
   | zero => omega
   | step _ _ hblk ih => have := hblk.1; omega
+
+/-- the output reached extends the dictionary -/
+theorem RReach.extends {D s : Bytes} {n p : Nat} {out : Bytes} (h : RReach D s n p out) : ∃ x, out = D ++ x := by
+  induction h with
+  | zero => exact ⟨#[], by simp⟩
+  | step _ _ hblk ih =>
+    obtain ⟨x, hx⟩ := ih
+    obtain ⟨y, hy⟩ := hblk.2.1
+    exact ⟨x ++ y, by rw [hy, hx, Array.append_assoc]⟩
 
 /-- The output of a successful run of the block loop extends the output it started with. -/
 theorem blocks_extends (s : Bytes) : ∀ (fuel p : Nat) (out : Bytes) (pE : Nat) (T : Bytes),
